@@ -5,6 +5,7 @@ character codes (`_` = empty string); a list of strings is `,`-separated. A trac
 `<n> <xs> <ys> <zs> <ts> <names> <cols>` (floats as IEEE bit patterns, columns `;`-separated).
 
   operate <track> <expr>                    → <status> <vector|none> <names> <cols> <xs> <ys> <zs>
+  operatex <track> <names> <values> <expr>  → as `operate`, with the dictionary of externals
   getitem <track> <expr>                    → as `operate` (Track[expr])
   operateseq <track> <expr>,<expr>,…        → as `operate`, for the last statement run (the first failing one)
   rpn <expr>                                → <status> <tokens>        (utils.makeRPN, character level)
@@ -86,6 +87,13 @@ def handle (cmd : String) (args : List String) : String :=
     | some (tr, [e]) => match str? e with
       | some e => showRes (operate tr e)
       | none => "bad-request"
+    | _ => "bad-request"
+  | "operatex" =>
+    -- operatex <track> <names> <values> <expr> : Track.operate(expr, {name: value, …})
+    match track? args with
+    | some (tr, [ns, vs, e]) => match strList? ns, floatList? vs, str? e with
+      | some ns, some vs, some e => if ns.length == vs.length then showRes (operateX (ns.zip vs) tr e) else "bad-request"
+      | _, _, _ => "bad-request"
     | _ => "bad-request"
   | "getitem" =>
     match track? args with
